@@ -273,8 +273,17 @@ class H(explore.Harness):
         name = f"Acc{IDS.index(dev_id)}.{hap}"
         c = self.ctrls[via]
         now = self.loop.time()
-        if kind == "zc-add":
+        if kind == "zc-bad":
+            # what the cache holds under this name is now an unusable record; zeroconf reports a changed record of a known name as Updated.
+            # Nothing can be demanded for it - and nothing of it may stay behind: a later usable record under the name counts as any other
+            known = name in self.zc_cache
+            self.zc_cache[name] = svc_info(hap, dev_id, addresses=("169.254.1.1",), name=f"Acc{IDS.index(dev_id)}")
+            self.model_resolve.pop(name, None)
+            for fn in list(self.browsers[via].service_state_changed.handlers):
+                fn(None, hap, name, ServiceStateChange.Updated if known else ServiceStateChange.Added)
+        elif kind == "zc-add":
             props, v = self._props(dev_id, 0)
+            known = name in self.zc_cache and self.p.get("zc_bad")
             self.zc_cache[name] = svc_info(hap, dev_id, props=props, name=f"Acc{IDS.index(dev_id)}", **({"addresses": (address,)} if address else {}))
             if via in self.target_vias:
                 self.may_find.add(dev_id)  # from now on a waiter may legitimately complete (the record is in the cache)
@@ -284,7 +293,7 @@ class H(explore.Harness):
                 # controller was started: before that the record just sits in the zeroconf cache and start-up has to pick it up.
                 self.model_resolve[name] = (now + DEBOUNCE_MAX, dev_id, via, v)
             for fn in list(self.browsers[via].service_state_changed.handlers):
-                fn(None, hap, name, ServiceStateChange.Added)
+                fn(None, hap, name, ServiceStateChange.Updated if known else ServiceStateChange.Added)
         else:
             # goodbye: the pending resolution (if any) is dropped; a later Added starts afresh
             self.model_resolve.pop(name, None)
@@ -328,6 +337,8 @@ class H(explore.Harness):
                     if via != "ble":
                         ev.append(f"zc-add:{i}:{via}")
                         ev.append(f"zc-rm:{i}:{via}")
+                        if self.p.get("zc_bad"):
+                            ev.append(f"zc-bad:{i}:{via}")  # the record of the name becomes an unusable one (no lease yet: link-local address only)
         if self.p.get("disc_connect") and "ble" in self.ctrls and not getattr(self, "disc_connected", False) and IDS[0] in self.ctrls["ble"].discoveries:
             ev.append("disc-connect")  # a connection is opened through the discovery (identify, pair-setup) and stays up: advertisements keep arriving
         if self.p.get("pairing_shutdown") and self.mode != "none" and not getattr(self, "pairing_shut", False):
@@ -399,9 +410,9 @@ class H(explore.Harness):
                     dev_id = next(i for i in IDS if f"Acc{IDS.index(i)}." in name)
                     self.model_resolve[name] = (now + START_MAX, dev_id, via, self._props(dev_id, 0)[1])
             self.start_tasks = getattr(self, "start_tasks", []) + [self.loop.create_task(self.ctrls[via].async_start())]
-        elif k in ("zc-add", "zc-rm"):
+        elif k in ("zc-add", "zc-rm", "zc-bad"):
             try:
-                self._zc(k if k == "zc-add" else "zc-rm", IDS[int(parts[1])], parts[2], address=parts[3] if len(parts) > 3 else None)
+                self._zc(k, IDS[int(parts[1])], parts[2], address=parts[3] if len(parts) > 3 else None)
             except Exception as e:  # noqa: BLE001
                 self.viol.append((f"browser-callback-raises:{type(e).__name__}:{k}", {"err": str(e)[:200], "t": now}))
         elif k == "cancel":
@@ -747,6 +758,14 @@ def run(ctx):
         # state changes through the zeroconf browser callback (debounced resolution, goodbye inside the debounce window)
         dict(kind="ip", pairing="none", waiters=1, ids=1, P=0, browser=True, timeouts=(5.0,)),
         dict(kind="coap", pairing="none", waiters=1, ids=1, P=0, browser=True, timeouts=(1.0,)),
+        # ... and a name whose record is unusable for a while (Updated, not Removed + Added, when it changes)
+        dict(kind="ip", pairing="none", waiters=1, ids=1, P=0, browser=True, zc_bad=True, timeouts=(5.0,)),
+        dict(kind="coap", pairing="none", waiters=1, ids=1, P=0, browser=True, zc_bad=True, timeouts=(5.0,)),
+        # a waiter that does not want to wait at all (timeout 0: 'is it known right now?')
+        dict(kind="ip", pairing="none", waiters=2, ids=1, P=0, timeouts=(0.0, 5.0)),
+        dict(kind="coap", pairing="none", waiters=1, ids=1, P=0, timeouts=(0, 1.0)),
+        dict(kind="ble", pairing="none", waiters=1, ids=1, P=0, timeouts=(0.0, 1.0)),
+        dict(kind="agg", pairing="none", waiters=1, ids=1, P=0, timeouts=(0.0,)),
         # controller start-up as an event: records already in the cache, records announced while start-up resolves another one over the network
         dict(kind="ip", pairing="none", waiters=1, ids=1, P=0, browser=True, start_event=True, timeouts=(20.0,)),
         dict(kind="coap", pairing="none", waiters=1, ids=1, P=0, browser=True, start_event=True, bad_ptr=True, timeouts=(20.0,)),
